@@ -97,6 +97,11 @@ def build(cls, case, fem):
             mult = (None, 2.5, 1.0, 0.4)[case["pseed"] % 4] if cls in ("nonlinear", "loads") else None
             body = fem.SolidBody(fem.NeoHooke(mu=mu, bulk=bulk), fcx, multiplier=mult)
         items = [body]
+        if case["pseed"] % 5 == 0 and cls in ("linear", "nonlinear", "loads") and not plain2d:
+            # a switched-off body (multiplier 0.0) of another stiffness among the items: it contributes neither to the residual nor
+            # to the system matrix
+            off_um = fem.LinearElastic(E=7.0 * mu, nu=0.1) if dim == 3 else fem.constitution.LinearElasticPlaneStrain(E=7.0 * mu, nu=0.1)
+            items.append(fem.SolidBody(off_um, fcx, multiplier=0.0))
         if cls == "loads":
             rng = np.random.default_rng(case["pseed"])
             for e in case["extra"]:
@@ -219,7 +224,7 @@ def check(cls, case, rec):
     except ValueError as e:
         rec.label("raised")
         rec.nontrivial = True
-        if (cls == "linear" or (info["dim"] == 2 and cls == "nonlinear")) and maxiter >= 3 and tol >= 1e-10:
+        if (cls == "linear" or (info["dim"] == 2 and cls == "nonlinear")) and maxiter >= 1 and tol >= 1e-10 and case["start"] != "perturbed":
             # a linear problem is solved by the first update (whatever the start state and the item multiplier)
             rec.require("linear-problem-converges", False, {"maxiter": maxiter, "tol": tol, "start": case["start"]})
         if has_state:
@@ -266,6 +271,18 @@ def check(cls, case, rec):
     if cls == "linear" or (info["dim"] == 2 and cls in ("nonlinear",)):
         if not (cls == "loads"):
             rec.require("linear-problem-one-iteration", res.iterations == 1 or tol < 1e-11, [res.iterations, tol])
+    if case["start"] == "zero" and res.iterations < maxiter:
+        # the same problem again from scratch with the iteration limit set to the iterations it needed: converging in exactly
+        # `maxiter` iterations is a success
+        mesh_b, info_b, fc_b, bounds_b, make_b, X_b, _ = build(cls, case, fem)
+        items_b = make_b(fc_b)
+        d0b, d1b = fem.dof.partition(fc_b, bounds_b)
+        e0b = fem.dof.apply(fc_b, bounds_b, d0b)
+        try:
+            res_b = fem.newtonrhapson(x0=fc_b, items=items_b, dof0=d0b, dof1=d1b, ext0=e0b, tol=tol, maxiter=int(res.iterations))
+            rec.require("rerun-with-maxiter=needed-iterations-succeeds", int(res_b.iterations) == int(res.iterations), [int(res_b.iterations), int(res.iterations)])
+        except ValueError as e_:
+            rec.require("rerun-with-maxiter=needed-iterations-succeeds", False, str(e_)[:80])
     if has_state:
         # committed state = trial state of the converged iterate (fresh evaluation with the previous committed state)
         um = fresh[0].umat
